@@ -61,9 +61,19 @@ def is_down(positive, d, ctx):
     return sum(1 for v in vals if v > 0) > len(vals) / 2
 
 
-def body(ctx, n, positive, with_bounds, dimcoord, data_pos, pd, d2s, depth_mode, via, second=False, bounds_coords=False, dangling=False):
+def body(ctx, n, positive, with_bounds, dimcoord, data_pos, pd, d2s, depth_mode, via, second=False, bounds_coords=False, dangling=False,
+         numpy_options=False, layer_index=False):
     from emsarray.operations import depth as depth_ops
     ds, dim, d, b, temp, dims = build(ctx, n, positive, with_bounds, dimcoord, data_pos, depth_mode, second)
+    if layer_index and not dimcoord:
+        # the layer dimension has an index coordinate of its own (layer numbers) next to the depth coordinate
+        ds = ds.assign_coords({dim: ((dim,), numpy.arange(n) + 1)})
+    if numpy_options:
+        # options computed with numpy (a comparison, a reduction) are numpy booleans; 1 / 0 mean the same
+        pd_arg = None if pd is None else numpy.bool_(pd)
+        d2s_arg = None if d2s is None else int(d2s)
+    else:
+        pd_arg, d2s_arg = pd, d2s
     if via == 'convention':
         # the same dataset as a CF grid dataset: the alias on the convention finds the depth coordinates itself
         from symx import builders
@@ -90,11 +100,11 @@ def body(ctx, n, positive, with_bounds, dimcoord, data_pos, pd, d2s, depth_mode,
                 from emsarray.conventions.grid import CFGrid1D
                 cv = CFGrid1D(dataset)
                 ctx.check({str(c.name) for c in cv.depth_coordinates} == set(names), 'every depth coordinate of the dataset is found')
-                out = cv.normalize_depth_variables(positive_down=pd, deep_to_shallow=d2s)
+                out = cv.normalize_depth_variables(positive_down=pd_arg, deep_to_shallow=d2s_arg)
             elif via == 'iterator':
-                out = depth_ops.normalize_depth_variables(dataset, (n for n in names), positive_down=pd, deep_to_shallow=d2s)
+                out = depth_ops.normalize_depth_variables(dataset, (n for n in names), positive_down=pd_arg, deep_to_shallow=d2s_arg)
             else:
-                out = depth_ops.normalize_depth_variables(dataset, names, positive_down=pd, deep_to_shallow=d2s)
+                out = depth_ops.normalize_depth_variables(dataset, names, positive_down=pd_arg, deep_to_shallow=d2s_arg)
         return out, w
 
     out, warned = normalise(ds)
@@ -213,6 +223,15 @@ def cases(tier):
             yield Case(f'sym:{positive}:pd{pd}:d2s{d2s}:b0:n2:dangling-bounds-attribute', body,
                        dict(n=2, positive=positive, with_bounds=False, dimcoord=True, data_pos=1, pd=pd, d2s=d2s, depth_mode='symbolic', via='function',
                             dangling=True), patches=depthcommon.patches, max_paths=200)
+    # options given as numpy booleans / ints; a layer dimension that has an index coordinate of its own
+    for positive in ('up', 'down'):
+        for (pd, d2s) in opts:
+            yield Case(f'sym:{positive}:pd{pd}:d2s{d2s}:b1:n2:numpy-options', body,
+                       dict(n=2, positive=positive, with_bounds=True, dimcoord=(positive == 'down'), data_pos=1, pd=pd, d2s=d2s, depth_mode='symbolic',
+                            via='function', numpy_options=True), patches=depthcommon.patches, max_paths=200)
+            yield Case(f'sym:{positive}:pd{pd}:d2s{d2s}:b{int(pd is None)}:n3:layer-index', body,
+                       dict(n=3, positive=positive, with_bounds=(pd is None), dimcoord=False, data_pos=2, pd=pd, d2s=d2s, depth_mode='symbolic',
+                            via='function', layer_index=True, second=(d2s is True)), patches=depthcommon.patches, max_paths=200)
     # bounds held as coordinates
     for positive in ('up', 'down'):
         for (pd, d2s) in opts:
